@@ -210,6 +210,7 @@ func (c13) Table(rows []Ev, tier string, seed int64, rep *TableReport) {
 	}
 	seen := 0
 	for _, r := range rows {
+		tick([]Ev{r})
 		switch GS(r["t"]) {
 		case "len0":
 			seen++
